@@ -301,3 +301,21 @@ Proof.
   intros s x H. cbn in H.
   repeat (destruct H as [H|H]; [injection H as <- <-; vm_compute; reflexivity|]). destruct H.
 Qed.
+
+(** * marker operator -> PEP 440 operator (used for version keys) *)
+Definition vop_name (v : vop) : string :=
+  match v with
+  | OEq => "Equal" | OEqStar => "EqualStar" | OExact => "ExactEqual" | ONe => "NotEqual" | ONeStar => "NotEqualStar"
+  | OTilde => "TildeEqual" | OLt => "LessThan" | OLe => "LessThanEqual" | OGt => "GreaterThan" | OGe => "GreaterThanEqual"
+  end.
+
+(** the model's [vop_of] (Text/MarkerParse.v) is the source's [to_pep440_operator] *)
+Theorem to_pep440_is_model : forall o m, to_mop o = Some m ->
+  to_pep440_operator o = option_map vop_name (MarkerParse.vop_of m).
+Proof. intros o m; destruct o; cbn; intros H; try discriminate; injection H as <-; reflexivity. Qed.
+
+(** ... and it names the PEP 440 operator with the same meaning on the outcome of a comparison *)
+Theorem to_pep440_same_meaning : forall o n c b, to_pep440_operator o = Some n -> holds o c = Some b ->
+  n = match o with O_Equal => "Equal" | O_NotEqual => "NotEqual" | O_GreaterThan => "GreaterThan" | O_GreaterEqual => "GreaterThanEqual"
+             | O_LessThan => "LessThan" | O_LessEqual => "LessThanEqual" | _ => n end.
+Proof. intros o n c b; destruct o; cbn; intros H1 H2; try discriminate; injection H1 as <-; reflexivity. Qed.
